@@ -1,4 +1,4 @@
-import Lemmas.NumFrame
+import Lemmas.NumAllot
 /-! Frame lemmas for destinations: an account, an ordered destination (`max … to`, `remaining to …` / `remaining
 kept`, `kept`), in `Spec`'s words (`evalDest`, `evalKD`, `evalCaps`, `evalAllot`). -/
 namespace Num
@@ -143,12 +143,13 @@ theorem allot_head (V : List BVal) (m : Machine) (S : List BVal) (ks : List (Acc
 /-! ### the destination fragment and what the code of a destination does -/
 
 mutual
-/-- the destination fragment: an account, or an ordered destination whose parts are in the fragment
-(`kept` included); destination allotments are not covered yet -/
+/-- the destination fragment — every destination: an account, an ordered destination (`kept` included), an
+allotment; with two side conditions that hold of everything the front end produces: fewer than 2^64 shares in one
+allotment (the count travels through `Uint64()`), and no portion literal with a zero denominator -/
 def Dest.frag : Dest → Bool
   | .acct _ => true
   | .inorder caps rest => caps.frag && rest.frag
-  | .allot _ => false
+  | .allot items => items.frag && decide (allotLen items < 18446744073709551616) && (allotPortions items).all specPos
 def KeptOrDest.frag : KeptOrDest → Bool
   | .kept => true
   | .to d => d.frag
@@ -203,7 +204,7 @@ def AllotSpec (V : List BVal) (env : VEnv) (E : List (Acct × Asset)) (items : A
           .ok ((m.setPost st2.postings).upd (.funding r.asset r.parts :: S) ks' st2.bal)
 
 mutual
-theorem dest_ok {R : List Resource} {V : List BVal} {env : VEnv} (cx : Ctx R V env) {st st' : CState} {d : Dest} {c : Code}
+theorem dest_ok {R : List Resource} {V : List BVal} {env : VEnv} (cx : Ctx R V env) (hp : VPos V) {st st' : CState} {d : Dest} {c : Code}
     (hv : visitDest st d = .ok (c, st')) (hsub : Sub st' R) (hidx : VarIdxOK st) (hf : d.frag = true) :
     DestSpec V env E d c := by
   cases d with
@@ -272,8 +273,8 @@ theorem dest_ok {R : List Resource} {V : List BVal} {env : VEnv} (cx : Ctx R V e
               have hc0 := emitSeq_exec cx h0 hsub0
               have hc2 := emitSeq_exec cx h2 hsub2
               have hc4 := emitSeq_exec cx h4 hsub
-              have ihC := caps_ok cx h1 hsub1 (e0.varIdxOK hidx) hf.1
-              have ihK := kd_ok cx h3 hsub3 ((e0.trans (e1.trans e2)).varIdxOK hidx) hf.2
+              have ihC := caps_ok cx hp h1 hsub1 (e0.varIdxOK hidx) hf.1
+              have ihK := kd_ok cx hp h3 hsub3 ((e0.trans (e1.trans e2)).varIdxOK hidx) hf.2
               intro m S ks b f hok hparts
               simp only [evalDest]
               have hC := ihC m S ks b f 0 hok hparts
@@ -317,8 +318,69 @@ theorem dest_ok {R : List Resource} {V : List BVal} {env : VEnv} (cx : Ctx R V e
                     · simp only [hra, if_false]
                       simp only [exec_append, hc0, inorder_pre, hex1, hc2, inorder_mid, ne_eq, not_true_eq_false, if_false, htk,
                         hex2, hc4, join_tail, hra, not_false_eq_true, if_true]
-  | allot items => simp [Dest.frag] at hf
-theorem kd_ok {R : List Resource} {V : List BVal} {env : VEnv} (cx : Ctx R V env) {st st' : CState} {kd : KeptOrDest} {c : Code}
+  | allot items =>
+    simp only [Dest.frag, Bool.and_eq_true, decide_eq_true_eq, List.all_eq_true] at hf
+    obtain ⟨⟨hfi, hlen⟩, hq⟩ := hf
+    simp only [visitDest] at hv
+    split at hv
+    · cases hv
+    · rename_i c1 st1 h1
+      split at hv
+      · cases hv
+      · rename_i c2 st2 h2
+        split at hv
+        · cases hv
+        · rename_i c3 st3 h3
+          simp only [Except.ok.injEq, Prod.mk.injEq] at hv
+          obtain ⟨rfl, rfl⟩ := hv
+          have e1 := visitAllotment_ext h1
+          have e2 := emitSeq_ext h2
+          have e3 := visitAllocDest_ext h3
+          have hsub2 : Sub st2 R := hsub.of_ext e3
+          have hsub1 : Sub st1 R := hsub2.of_ext e2
+          have hA := allotment_ok cx hp h1 hsub1 hidx hq (by rw [allotPortions_length]; exact hlen)
+          have hc2 := emitSeq_exec cx h2 hsub2
+          have ihA := allot_ok cx hp h3 hsub ((e1.trans e2).varIdxOK hidx) hfi
+          intro m S ks b f hok hparts
+          simp only [evalDest]
+          cases hrp : resolvePortions env (allotPortions items) with
+          | error er =>
+            rw [hrp] at hA
+            simp only [List.cons_append, List.nil_append, exec_cons, step_fundingSum, exec_append, hA]
+          | ok al =>
+            rw [hrp] at hA
+            obtain ⟨al', hrel, hex1⟩ := hA
+            have hplen : (allocate al (total f.parts)).length = allotLen items := by
+              rw [allocate_length, resolvePortions_length hrp, allotPortions_length]
+            have hA2 := ihA m S ks b f (allocate al (total f.parts)) hplen hok hparts
+            have hbump : ∀ (m' : Machine) (ks' : List (Acct × Asset)) (b' : Bal),
+                step V .bump (m'.upd (.num (allotLen items) :: ((allocate al (total f.parts)).map (fun x => BVal.mon f.asset x) ++ .funding f.asset f.parts :: S)) ks' b') =
+                  .ok (m'.upd (.funding f.asset f.parts :: ((allocate al (total f.parts)).map (fun x => BVal.mon f.asset x) ++ S)) ks' b') := by
+              intro m' ks' b'
+              have := step_bumpN V m' S ks' b' ((allocate al (total f.parts)).map (fun x => BVal.mon f.asset x)) (.funding f.asset f.parts)
+                (by rw [List.length_map, hplen]; exact hlen)
+              rw [List.length_map, hplen] at this
+              exact this
+            have hpre : exec V (.fundingSum :: (c1 ++ [.alloc] ++ c2)) (m.upd (.funding f.asset f.parts :: S) ks b) =
+                .ok (m.upd (.funding f.asset f.parts :: ((allocate al (total f.parts)).map (fun x => BVal.mon f.asset x) ++ S)) ks b) := by
+              simp only [exec_cons, step_fundingSum, exec_append, hex1, push_upd, exec, step_alloc, hc2, runEmits,
+                ← allocate_ratsRel hrel, hbump]
+            simp only
+            cases hev : evalAllot env items (allocate al (total f.parts)) f ⟨b, m.postings⟩ with
+            | error er =>
+              rw [hev] at hA2
+              have : [Instr.fundingSum] ++ c1 ++ [.alloc] ++ c2 ++ c3 = (.fundingSum :: (c1 ++ [.alloc] ++ c2)) ++ c3 := by simp
+              rw [this, exec_append, hpre]
+              exact hA2
+            | ok r =>
+              obtain ⟨r, st2'⟩ := r
+              rw [hev] at hA2
+              obtain ⟨hok2, hparts2, ks2, hex2⟩ := hA2
+              refine ⟨hok2, hparts2, ks2, ?_⟩
+              have : [Instr.fundingSum] ++ c1 ++ [.alloc] ++ c2 ++ c3 = (.fundingSum :: (c1 ++ [.alloc] ++ c2)) ++ c3 := by simp
+              rw [this, exec_append, hpre]
+              exact hex2
+theorem kd_ok {R : List Resource} {V : List BVal} {env : VEnv} (cx : Ctx R V env) (hp : VPos V) {st st' : CState} {kd : KeptOrDest} {c : Code}
     (hv : visitKD st kd = .ok (c, st')) (hsub : Sub st' R) (hidx : VarIdxOK st) (hf : kd.frag = true) :
     KDSpec V env E kd c := by
   cases kd with
@@ -328,14 +390,14 @@ theorem kd_ok {R : List Resource} {V : List BVal} {env : VEnv} (cx : Ctx R V env
     intro m S ks b f hok hparts
     simp only [evalKD]
     exact ⟨hok, hparts, ks, rfl⟩
-  | to d =>
+  | «to» d =>
     simp only [visitKD] at hv
     simp only [KeptOrDest.frag] at hf
-    have := dest_ok cx hv hsub hidx hf
+    have := dest_ok cx hp hv hsub hidx hf
     intro m S ks b f hok hparts
     simp only [evalKD]
     exact this m S ks b f hok hparts
-theorem caps_ok {R : List Resource} {V : List BVal} {env : VEnv} (cx : Ctx R V env) {st st' : CState} {caps : CapList} {c : Code}
+theorem caps_ok {R : List Resource} {V : List BVal} {env : VEnv} (cx : Ctx R V env) (hp : VPos V) {st st' : CState} {caps : CapList} {c : Code}
     (hv : visitCaps st caps = .ok (c, st')) (hsub : Sub st' R) (hidx : VarIdxOK st) (hf : caps.frag = true) :
     CapsSpec V env E caps c := by
   cases caps with
@@ -381,8 +443,8 @@ theorem caps_ok {R : List Resource} {V : List BVal} {env : VEnv} (cx : Ctx R V e
                 have hmon := monExpr_ok cx ho hsubo hidx (visitExpr_noPortion ho (by rw [hty']; decide)) hty'
                 have hc1 := emitSeq_exec cx h1 hsub1
                 have hc3 := emitSeq_exec cx h3 hsub3
-                have ihK := kd_ok cx h2 hsub2 ((eo.trans e1).varIdxOK hidx) hf.1
-                have ihC := caps_ok cx h4 hsub ((eo.trans (e1.trans (e2.trans e3))).varIdxOK hidx) hf.2
+                have ihK := kd_ok cx hp h2 hsub2 ((eo.trans e1).varIdxOK hidx) hf.1
+                have ihC := caps_ok cx hp h4 hsub ((eo.trans (e1.trans (e2.trans e3))).varIdxOK hidx) hf.2
                 intro m S ks b cur kt hok hparts
                 simp only [evalCaps]
                 cases hcm : evalMon env cap with
@@ -436,7 +498,7 @@ theorem caps_ok {R : List Resource} {V : List BVal} {env : VEnv} (cx : Ctx R V e
                             hex1, hc3, caps_tail, hka, not_false_eq_true, if_true]
                     · simp only [has, ne_eq, not_false_eq_true, if_true]
                       simp only [exec_append, hmon, push_upd, hc1, caps_head, hneg, if_false, has, ne_eq, not_false_eq_true, if_true]
-theorem allot_ok {R : List Resource} {V : List BVal} {env : VEnv} (cx : Ctx R V env) {st st' : CState} {items : AllotList} {c : Code}
+theorem allot_ok {R : List Resource} {V : List BVal} {env : VEnv} (cx : Ctx R V env) (hp : VPos V) {st st' : CState} {items : AllotList} {c : Code}
     (hv : visitAllocDest st items = .ok (c, st')) (hsub : Sub st' R) (hidx : VarIdxOK st) (hf : items.frag = true) :
     AllotSpec V env E items c := by
   cases items with
@@ -474,8 +536,8 @@ theorem allot_ok {R : List Resource} {V : List BVal} {env : VEnv} (cx : Ctx R V 
             have hsub1 : Sub st1 R := hsub2.of_ext e2
             have hc1 := emitSeq_exec cx h1 hsub1
             have hc3 := emitSeq_exec cx h3 hsub3
-            have ihK := kd_ok cx h2 hsub2 (e1.varIdxOK hidx) hf.1
-            have ihA := allot_ok cx h4 hsub ((e1.trans (e2.trans e3)).varIdxOK hidx) hf.2
+            have ihK := kd_ok cx hp h2 hsub2 (e1.varIdxOK hidx) hf.1
+            have ihA := allot_ok cx hp h4 hsub ((e1.trans (e2.trans e3)).varIdxOK hidx) hf.2
             intro m S ks b cur parts hlen hok hparts
             cases parts with
             | nil => simp [allotLen] at hlen
